@@ -1,6 +1,7 @@
 package check
 
 import (
+	"go/constant"
 	"go/token"
 	"go/types"
 
@@ -390,3 +391,74 @@ func regionFns(fn *ssa.Function, depth int, stop map[string]bool) []*ssa.Functio
 
 // dispatcherNames: functions whose bodies dispatch over all node kinds; a region never extends into them.
 var dispatcherNames = map[string]bool{"eval": true, "Compile": true, "format": true, "Run": true, "parseStatement": true, "parseExpr": true, "wrapAny": true}
+
+// condFact: a condition value and the truth it has whenever control is at some block.
+type condFact struct {
+	Cond  ssa.Value
+	Truth bool
+}
+
+// impliedConds returns the branch conditions known at block b: the tests of the dominating conditional jumps whose one
+// edge dominates b. It looks through negations and through go/ssa's lowering of `a && b` / `a || b` (also as the
+// condition of a switch case), where the test is made on a phi of constants and one computed operand: on the edge on
+// which such a phi has the value no constant gives it, the computed operand has that value and everything known at
+// the block that computed it holds as well.
+func impliedConds(b *ssa.BasicBlock) []condFact {
+	var out []condFact
+	seen := map[*ssa.BasicBlock]bool{}
+	var at func(b *ssa.BasicBlock, depth int)
+	var expand func(v ssa.Value, truth bool, depth int)
+	expand = func(v ssa.Value, truth bool, depth int) {
+		if depth > 8 {
+			return
+		}
+		switch x := v.(type) {
+		case *ssa.UnOp:
+			if x.Op == token.NOT {
+				expand(x.X, !truth, depth+1)
+				return
+			}
+		case *ssa.Phi:
+			var rest []int
+			for j, e := range x.Edges {
+				if k, ok := e.(*ssa.Const); ok && k.Value != nil && k.Value.Kind() == constant.Bool {
+					if constant.BoolVal(k.Value) == truth {
+						return // a constant edge can give this value: nothing follows
+					}
+					continue
+				}
+				rest = append(rest, j)
+			}
+			if len(rest) == 1 && rest[0] < len(x.Block().Preds) {
+				expand(x.Edges[rest[0]], truth, depth+1)
+				at(x.Block().Preds[rest[0]], depth+1)
+			}
+			return
+		}
+		out = append(out, condFact{v, truth})
+	}
+	at = func(b *ssa.BasicBlock, depth int) {
+		if seen[b] || depth > 8 {
+			return
+		}
+		seen[b] = true
+		for d := b; d != nil; d = d.Idom() {
+			id := d.Idom()
+			if id == nil || len(id.Instrs) == 0 {
+				continue
+			}
+			ifi, ok := id.Instrs[len(id.Instrs)-1].(*ssa.If)
+			if !ok {
+				continue
+			}
+			switch {
+			case edgeDominates(id, 0, b):
+				expand(ifi.Cond, true, depth)
+			case edgeDominates(id, 1, b):
+				expand(ifi.Cond, false, depth)
+			}
+		}
+	}
+	at(b, 0)
+	return out
+}
